@@ -320,6 +320,18 @@ def check_asciifold(facts):
         gs = [(symex.show(g), v) for g, v in p.guards]
         got[tuple(gs)] = symex.show(p.ret)
     want = {(("unicode", True),): "to_ascii_lowercase(c)", (("unicode", False),): "to_ascii_uppercase(c)"}
+    # the non-ASCII siblings must go through fold_code_point(c, unicode) with the flag passed on
+    for fn in [n for n in facts.body_names() if n.endswith("CharProperties>::fold") and "ASCIICharProperties" not in n]:
+        fb = facts.body(fn)
+        key = "%s delegates to unicode::fold_code_point(c, unicode)" % fn
+        calls = [t for bb, t in fb.iter_calls() if (t.get("callee") or "").startswith("unicode::")]
+        ok = len(calls) == 1 and calls[0]["callee"] == "unicode::fold_code_point" and len(calls[0]["args"]) == 2 \
+            and calls[0]["args"][1].get("k") in ("copy", "move") and fb.root_of(calls[0]["args"][1]["pl"]["l"])[0] == 2
+        if ok:
+            r.ok(key)
+        else:
+            r.fail(key, "match-time folding ignores the regex's unicode flag (calls %s): backreferences under /i fold differently from "
+                        "the UTF-8 executor and from compile-time expansion" % [c.get("callee") for c in calls], facts.loc(fn))
     if got == want:
         r.ok("ASCIICharProperties::fold == to_ascii_lowercase / to_ascii_uppercase", "%s" % got)
     else:
